@@ -73,7 +73,8 @@ type drSpec struct {
 	ctime    int
 	host     string
 	exportTo []string
-	selector bool
+	selector map[string]string // nil: no workloadSelector
+	subsets  []string
 }
 
 type listenerSpec struct {
@@ -323,7 +324,8 @@ func (v vsSpec) line() []string {
 }
 
 func (d drSpec) line() []string {
-	return []string{"dr", wire.Enc(d.name), wire.Enc(d.ns), strconv.Itoa(d.ctime), wire.Enc(d.host), encItems(d.exportTo, ","), wire.B(d.selector)}
+	return []string{"dr", wire.Enc(d.name), wire.Enc(d.ns), strconv.Itoa(d.ctime), wire.Enc(d.host), encItems(d.exportTo, ","),
+		encLabels(d.selector, d.selector == nil), encItems(d.subsets, ",")}
 }
 
 func (s sidecarSpec) line() []string {
@@ -373,9 +375,13 @@ func (w *world) apply(t []string) bool {
 	case t[0] == "vs" && len(t) == 10:
 		w.vss = append(w.vss, vsSpec{name: wire.Dec(t[1]), ns: wire.Dec(t[2]), ctime: atoi(t[3]), hosts: decItems(t[4], ","),
 			exportTo: decItems(t[5], ","), gateways: decItems(t[6], ","), gwSem: t[7] == "1", http: decHTTP(t[8]), tcp: decDests(t[9])})
-	case t[0] == "dr" && len(t) == 7:
+	case t[0] == "dr" && len(t) == 8:
+		sel, isNil := decLabels(t[6])
+		if isNil {
+			sel = nil
+		}
 		w.drs = append(w.drs, drSpec{name: wire.Dec(t[1]), ns: wire.Dec(t[2]), ctime: atoi(t[3]), host: wire.Dec(t[4]),
-			exportTo: decItems(t[5], ","), selector: t[6] == "1"})
+			exportTo: decItems(t[5], ","), selector: sel, subsets: decItems(t[7], ",")})
 	case t[0] == "sc" && len(t) == 6:
 		sel, isNil := decLabels(t[4])
 		if isNil {
@@ -392,10 +398,17 @@ func (w *world) apply(t []string) bool {
 
 var epoch = time.Date(2020, 1, 1, 0, 0, 0, 0, time.UTC)
 
-func (s *svcSpec) real() *model.Service {
+// vipOf: the service VIP of the i-th declared service (TCP listeners bind to it).
+func vipOf(i int) string { return fmt.Sprintf("10.1.%d.%d", i/200, i%200+1) }
+
+func (s *svcSpec) real(idx int) *model.Service {
 	ports := make(model.PortList, 0, len(s.ports))
 	for _, p := range s.ports {
-		ports = append(ports, &model.Port{Name: p.name, Port: p.num, Protocol: protocol.HTTP})
+		pr := protocol.HTTP
+		if strings.HasPrefix(p.name, "tcp") {
+			pr = protocol.TCP
+		}
+		ports = append(ports, &model.Port{Name: p.name, Port: p.num, Protocol: pr})
 	}
 	reg := provider.External
 	if s.k8s {
@@ -413,6 +426,7 @@ func (s *svcSpec) real() *model.Service {
 		},
 	}
 	out.Attributes.K8sAttributes.ObjectName = s.id
+	out.DefaultAddress = vipOf(idx)
 	if s.externalName != "" {
 		out.Resolution = model.Alias
 		out.Attributes.K8sAttributes.ExternalName = s.externalName
@@ -453,17 +467,26 @@ func (v *vsSpec) real() config.Config {
 		for _, sn := range h.srcNs {
 			r.Match = append(r.Match, &networking.HTTPMatchRequest{SourceNamespace: sn})
 		}
-		for _, d := range h.dests {
-			r.Route = append(r.Route, &networking.HTTPRouteDestination{Destination: dest(d)})
+		// the destinations of one http route are spread over route / mirror / mirrors
+		for i, d := range h.dests {
+			switch i {
+			case 0:
+				r.Route = append(r.Route, &networking.HTTPRouteDestination{Destination: dest(d)})
+			case 1:
+				r.Mirror = dest(d)
+			default:
+				r.Mirrors = append(r.Mirrors, &networking.HTTPMirrorPolicy{Destination: dest(d)})
+			}
 		}
 		spec.Http = append(spec.Http, r)
 	}
-	if len(v.tcp) > 0 {
-		r := &networking.TCPRoute{}
-		for _, d := range v.tcp {
-			r.Route = append(r.Route, &networking.RouteDestination{Destination: dest(d)})
+	// tcp-level destinations alternate between a tcp and a tls route
+	for i, d := range v.tcp {
+		if i%2 == 0 {
+			spec.Tcp = append(spec.Tcp, &networking.TCPRoute{Route: []*networking.RouteDestination{{Destination: dest(d)}}})
+		} else {
+			spec.Tls = append(spec.Tls, &networking.TLSRoute{Route: []*networking.RouteDestination{{Destination: dest(d)}}})
 		}
-		spec.Tcp = append(spec.Tcp, r)
 	}
 	c := config.Config{
 		Meta: config.Meta{GroupVersionKind: gvk.VirtualService, Name: v.name, Namespace: v.ns,
@@ -478,8 +501,11 @@ func (v *vsSpec) real() config.Config {
 
 func (d *drSpec) real() config.Config {
 	spec := &networking.DestinationRule{Host: d.host, ExportTo: d.exportTo}
-	if d.selector {
-		spec.WorkloadSelector = &typev1beta1.WorkloadSelector{MatchLabels: map[string]string{"app": "sel"}}
+	if d.selector != nil {
+		spec.WorkloadSelector = &typev1beta1.WorkloadSelector{MatchLabels: d.selector}
+	}
+	for _, sn := range d.subsets {
+		spec.Subsets = append(spec.Subsets, &networking.Subset{Name: sn, Labels: map[string]string{"version": sn}})
 	}
 	return config.Config{
 		Meta: config.Meta{GroupVersionKind: gvk.DestinationRule, Name: d.name, Namespace: d.ns,
@@ -559,14 +585,17 @@ func (w *world) close() {
 	}
 }
 
+// waitSynced waits up to a minute (a loaded machine can be slow); the panic value is a distinct
+// token so that an environment timeout is not mistaken for a crash of the code under test.
 func waitSynced(f func() bool) {
-	for i := 0; i < 200000; i++ {
+	deadline := time.Now().Add(60 * time.Second)
+	for time.Now().Before(deadline) {
 		if f() {
 			return
 		}
 		time.Sleep(50 * time.Microsecond)
 	}
-	panic("not synced")
+	panic("env-timeout")
 }
 
 func (w *world) build() {
@@ -579,7 +608,7 @@ func (w *world) build() {
 	env.Watcher = meshwatcher.NewTestWatcher(w.meshConfig())
 	d := &sd{}
 	for i := range w.svcs {
-		d.services = append(d.services, w.svcs[i].real())
+		d.services = append(d.services, w.svcs[i].real(i))
 		w.byID[w.svcs[i].id] = &w.svcs[i]
 	}
 	env.ServiceDiscovery = d
@@ -592,6 +621,30 @@ func (w *world) build() {
 	for i := range w.drs {
 		if _, err := store.Create(w.drs[i].real()); err != nil {
 			panic(err)
+		}
+	}
+	// a Gateway `gw1` in every namespace whose VirtualServices bind to it, served by the router proxies
+	// of the oracle (selector istio=ingressgateway); it feeds GatewayServices when
+	// PILOT_FILTER_GATEWAY_CLUSTER_CONFIG is on
+	gwNs := map[string]bool{}
+	for i := range w.vss {
+		for _, g := range w.vss[i].gateways {
+			if g == "gw1" && !gwNs[w.vss[i].ns] {
+				gwNs[w.vss[i].ns] = true
+				gw := config.Config{
+					Meta: config.Meta{GroupVersionKind: gvk.Gateway, Name: "gw1", Namespace: w.vss[i].ns, CreationTimestamp: epoch},
+					Spec: &networking.Gateway{
+						Selector: map[string]string{"istio": "ingressgateway"},
+						Servers: []*networking.Server{{
+							Port:  &networking.Port{Number: 80, Name: "http", Protocol: "HTTP"},
+							Hosts: []string{"*"},
+						}},
+					},
+				}
+				if _, err := store.Create(gw); err != nil {
+					panic(err)
+				}
+			}
 		}
 	}
 	for i := range w.scs {
@@ -611,6 +664,31 @@ func (w *world) build() {
 	if err := env.InitNetworksManager(model.NewEndpointIndexUpdater(env.EndpointIndex)); err != nil {
 		panic(err)
 	}
+	// one endpoint per (hostname, namespace) key and port name, with an address that identifies the key
+	for _, k := range w.keys() {
+		var eps []*model.IstioEndpoint
+		seen := map[string]bool{}
+		for i := range w.svcs {
+			sp := &w.svcs[i]
+			if sp.hostname != k[0] || sp.ns != k[1] {
+				continue
+			}
+			for _, p := range sp.ports {
+				if seen[p.name] {
+					continue
+				}
+				seen[p.name] = true
+				eps = append(eps, &model.IstioEndpoint{
+					Addresses:       []string{w.keyAddr(k[0], k[1])},
+					ServicePortName: p.name,
+					EndpointPort:    uint32(p.num),
+					Namespace:       k[1],
+					HostName:        k[0],
+				})
+			}
+		}
+		env.EndpointIndex.UpdateServiceEndpoints(model.ShardKey{Cluster: "c1", Provider: "External"}, k[0], k[1], eps, false)
+	}
 	ps := model.NewPushContext()
 	ps.InitContext(env, nil, nil)
 	w.ps, w.env = ps, env
@@ -626,4 +704,28 @@ func resolutionOf(r int) model.Resolution {
 		return model.ClientSideLB
 	}
 	return model.Passthrough
+}
+
+// keys: the distinct (hostname, namespace) keys in declaration order.
+func (w *world) keys() [][2]string {
+	var out [][2]string
+	seen := map[[2]string]bool{}
+	for i := range w.svcs {
+		k := [2]string{w.svcs[i].hostname, w.svcs[i].ns}
+		if !seen[k] {
+			seen[k] = true
+			out = append(out, k)
+		}
+	}
+	return out
+}
+
+// keyAddr: the endpoint address registered for a key (its index among the keys).
+func (w *world) keyAddr(h, ns string) string {
+	for i, k := range w.keys() {
+		if k[0] == h && k[1] == ns {
+			return fmt.Sprintf("10.9.%d.%d", i/200, i%200+1)
+		}
+	}
+	return ""
 }
